@@ -42,6 +42,8 @@ func main() {
 			code = cmdReplay(os.Args[2:])
 		case "selftest":
 			code = cmdSelftest(os.Args[2:])
+		case "ssa":
+			code = cmdSSA(os.Args[2:])
 		case "closures":
 			code = cmdClosures(os.Args[2:])
 		default:
@@ -116,6 +118,7 @@ func collect(v *Verifier, p string, only string) ([]*FuncReport, []*Obligation) 
 			continue
 		}
 		rep := v.verifyFunc(k, fc)
+		rep.Obls = splitObligations(rep.Obls)
 		reps = append(reps, rep)
 		for _, o := range rep.Obls {
 			if p == "" || hasProp(o.Props, p) || (o.Kind == "cover" && contractMentions(fc, p)) {
@@ -131,10 +134,66 @@ func collect(v *Verifier, p string, only string) ([]*FuncReport, []*Obligation) 
 			continue
 		}
 		rep := v.verifyLemma(l)
+		rep.Obls = splitObligations(rep.Obls)
 		reps = append(reps, rep)
 		obls = append(obls, rep.Obls...)
 	}
 	return reps, obls
+}
+
+// splitGoal: A ==> (B && C) becomes A ==> B, A ==> C (one query per conjunct: quantified and
+// non-linear goals that time out as a conjunction are usually immediate one by one).
+func splitGoal(g *Node) []*Node {
+	switch {
+	case g.Op == "and":
+		var out []*Node
+		for _, a := range g.Args {
+			out = append(out, splitGoal(a)...)
+		}
+		return out
+	case g.Op == "=>" && len(g.Args) == 2:
+		var out []*Node
+		for _, c := range splitGoal(g.Args[1]) {
+			out = append(out, Implies(g.Args[0], c))
+		}
+		return out
+	case g.Binders != "" && strings.HasPrefix(g.Op, "forall|"):
+		parts := splitGoal(g.Args[0])
+		if len(parts) <= 1 {
+			return []*Node{g}
+		}
+		var out []*Node
+		for _, c := range parts {
+			n := TS.mk(g.Op, "Bool", c)
+			n.Binders = g.Binders
+			n.bound = g.bound
+			out = append(out, n)
+		}
+		return out
+	}
+	return []*Node{g}
+}
+
+func splitObligations(obls []*Obligation) []*Obligation {
+	var out []*Obligation
+	for _, o := range obls {
+		if o.Cover {
+			out = append(out, o)
+			continue
+		}
+		parts := splitGoal(o.Goal)
+		if len(parts) <= 1 {
+			out = append(out, o)
+			continue
+		}
+		for i, p := range parts {
+			c := *o
+			c.Goal = p
+			c.Name = fmt.Sprintf("%s.%d", o.Name, i+1)
+			out = append(out, &c)
+		}
+	}
+	return out
 }
 
 func (o *Obligation) asserts() []*Node {
@@ -142,6 +201,7 @@ func (o *Obligation) asserts() []*Node {
 	if !o.Cover {
 		as = append(as, Not(o.Goal))
 	}
+	as = append(byteAxioms(as), as...)
 	// string literal axioms for literals that occur
 	if o.exec != nil {
 		if ax := o.exec.strAxiomsFor(as); ax != tTrue {
@@ -636,6 +696,24 @@ func cmdClosures(args []string) int {
 		}
 		fmt.Println(a)
 		rec(fn, "  ")
+	}
+	return 0
+}
+
+func cmdSSA(args []string) int {
+	v, err := loadVerifier(repoDir, nil)
+	if err != nil {
+		fmt.Fprintln(os.Stderr, "load failed:", err)
+		return 2
+	}
+	for _, a := range args {
+		parts := strings.SplitN(a, ":", 2)
+		fn := v.funcForKey(repoModule+"/"+parts[0], parts[1])
+		if fn == nil {
+			fmt.Println("not found:", a)
+			continue
+		}
+		fn.WriteTo(os.Stdout)
 	}
 	return 0
 }
